@@ -1,6 +1,6 @@
 (* Extraction of the DSDL wire specification (C01-C05) (ExtrOcamlBasic only; N/Z/nat stay Coq datatypes). *)
-From Verif Require Import Wire.
+From Verif Require Import Wire Walker.
 Require Extraction ExtrOcamlBasic.
 Extraction Language OCaml.
 Extraction "model.ml" enc_body dec_body mask_body ser_spec des_spec des_spec_pa cast_val
-  bmax bmin fmax fmin align extent prefix_bits tag_bits wf_ty bits_of_N N_of_bits.
+  walk_ser_obs walk_des_bits bmax bmin fmax fmin align extent prefix_bits tag_bits wf_ty bits_of_N N_of_bits.
